@@ -414,4 +414,467 @@ theorem midOk_guard (b : Blk) (c : BlockCache) (hs : c.cache.Pairwise (fun a b =
     · have := hp e hem; omega
     · have := first_le_of_sorted hs.2.1 e hem; omega
 
+
+/-! ### sub-lists, Clear -/
+
+theorem wf_sublist {l l' : List Group} {n : Nat} (hs : l'.Sublist l) (h : WF { cache := l, next := n }) :
+    WF { cache := l', next := n } := by
+  obtain ⟨h1, h2, h3, h4, h5⟩ := h
+  exact ⟨h1.sublist hs, h2.sublist hs, fun g hg => h3 g (hs.subset hg), fun g hg => h4 g (hs.subset hg),
+    fun g hg => h5 g (hs.subset hg)⟩
+
+theorem clear_wf (h : Nat) (c : BlockCache) (hc : WF c) : WF (clear h c) := by
+  unfold clear
+  exact wf_sublist (List.dropWhile_sublist _) hc
+
+theorem mem_clear_sorted (h : Nat) : ∀ (l : List Group), l.Pairwise (fun a b => a.height < b.height) →
+    (∀ g ∈ l, ∀ b ∈ g.blocks, b.height = g.height) →
+    ∀ x, x ∈ blocksOf (l.dropWhile (fun g => decide (g.height ≤ h))) ↔ x ∈ blocksOf l ∧ h < x.height
+  | [], _, _, x => by simp
+  | g :: tl, hs, hh, x => by
+    rw [List.pairwise_cons] at hs
+    by_cases hg : g.height ≤ h
+    · rw [List.dropWhile_cons_of_pos (by simpa using hg)]
+      rw [mem_clear_sorted h tl hs.2 (fun e he => hh e (by simp [he])) x]
+      simp only [blocksOf_cons, List.mem_append]
+      constructor
+      · rintro ⟨h1, h2⟩; exact ⟨Or.inr h1, h2⟩
+      · rintro ⟨h1 | h1, h2⟩
+        · have := hh g (by simp) x h1; omega
+        · exact ⟨h1, h2⟩
+    · rw [List.dropWhile_cons_of_neg (by simpa using hg)]
+      constructor
+      · intro hx
+        refine ⟨hx, ?_⟩
+        obtain ⟨e, he, hxe⟩ := mem_blocksOf.mp hx
+        have h1 := hh e he x hxe
+        have h2 := first_le_of_sorted (List.pairwise_cons.mpr hs) e he
+        omega
+      · exact fun hx => hx.1
+
+/-- whatever the order of the entries, `Clear(h)` never drops a block above `h` -/
+theorem mem_clear_of_gt (h : Nat) : ∀ (l : List Group), (∀ g ∈ l, ∀ b ∈ g.blocks, b.height = g.height) →
+    ∀ x, x ∈ blocksOf l → h < x.height → x ∈ blocksOf (l.dropWhile (fun g => decide (g.height ≤ h)))
+  | [], _, x, hx, _ => by simp at hx
+  | g :: tl, hh, x, hx, hlt => by
+    by_cases hg : g.height ≤ h
+    · rw [List.dropWhile_cons_of_pos (by simpa using hg)]
+      simp only [blocksOf_cons, List.mem_append] at hx
+      rcases hx with hx | hx
+      · have := hh g (by simp) x hx; omega
+      · exact mem_clear_of_gt h tl (fun e he => hh e (by simp [he])) x hx hlt
+    · rw [List.dropWhile_cons_of_neg (by simpa using hg)]
+      exact hx
+
+/-! ### Iterate without aliasing -/
+
+/-- `Iterate` when every entry is its own object: entry by entry, key by key -/
+def iterSimple {σ : Type} (f : σ → Blk → σ × Bool) : σ → List Group → σ × List Group
+  | s, [] => (s, [])
+  | s, g :: rest =>
+    let r := visitKeys f s g.blocks
+    let r2 := iterSimple f r.1 rest
+    (r2.1, { g with blocks := g.blocks.filter (fun k => decide (k ∉ r.2)) } :: r2.2)
+
+theorem live_eq_self (D : List (Nat × Blk)) (g : Group) (h : ∀ k, (g.gid, k) ∉ D) : live D g = g.blocks := by
+  unfold live
+  apply List.filter_eq_self.mpr
+  intro k _
+  simp [h k]
+
+theorem iterGo_simple {σ : Type} (f : σ → Blk → σ × Bool) : ∀ (l : List Group) (s : σ) (D : List (Nat × Blk)),
+    l.Pairwise (fun a b => a.gid ≠ b.gid) → (∀ g ∈ l, ∀ k, (g.gid, k) ∉ D) →
+    (iterGo f s D l).1 = (iterSimple f s l).1 ∧
+    (∃ E, (iterGo f s D l).2.1 = D ++ E ∧ ∀ p ∈ E, ∃ g ∈ l, g.gid = p.1) ∧
+    l.map (fun e => { e with blocks := live (iterGo f s D l).2.1 e }) = (iterSimple f s l).2 ∧
+    (iterGo f s D l).2.2 = l.map (fun g => (g.height, g.blocks))
+  | [], s, D, _, _ => by
+    simp [iterGo, iterSimple]
+  | g :: rest, s, D, hp, hD => by
+    rw [List.pairwise_cons] at hp
+    have hlive : live D g = g.blocks := live_eq_self D g (hD g (by simp))
+    have hD1 : ∀ g' ∈ rest, ∀ k, (g'.gid, k) ∉ D ++ (visitKeys f s g.blocks).2.map (fun k => (g.gid, k)) := by
+      intro g' hg' k hk
+      rcases List.mem_append.mp hk with hk | hk
+      · exact hD g' (by simp [hg']) k hk
+      · obtain ⟨k', _, he⟩ := List.mem_map.mp hk
+        have : g.gid = g'.gid := by injection he
+        exact hp.1 g' hg' this
+    obtain ⟨h1, ⟨E, hE, hEg⟩, h3, h4⟩ := iterGo_simple f rest (visitKeys f s g.blocks).1
+      (D ++ (visitKeys f s g.blocks).2.map (fun k => (g.gid, k))) hp.2 hD1
+    simp only [iterGo, iterSimple, hlive]
+    refine ⟨h1, ⟨(visitKeys f s g.blocks).2.map (fun k => (g.gid, k)) ++ E, ?_, ?_⟩, ?_, ?_⟩
+    · rw [hE, List.append_assoc]
+    · intro p hp'
+      rcases List.mem_append.mp hp' with hp' | hp'
+      · obtain ⟨k', _, he⟩ := List.mem_map.mp hp'
+        exact ⟨g, by simp, by rw [← he]⟩
+      · obtain ⟨g', hg', he⟩ := hEg p hp'
+        exact ⟨g', by simp [hg'], he⟩
+    · rw [List.map_cons, h3]
+      congr 1
+      congr 1
+      unfold live
+      apply List.filter_congr
+      intro k _
+      rw [hE]
+      have hnD : (g.gid, k) ∉ D := hD g (by simp) k
+      have hnE : (g.gid, k) ∉ E := by
+        intro hk
+        obtain ⟨g', hg', he⟩ := hEg _ hk
+        exact hp.1 g' hg' he.symm
+      have hiff : (g.gid, k) ∈ D ++ (visitKeys f s g.blocks).2.map (fun k => (g.gid, k)) ++ E ↔ k ∈ (visitKeys f s g.blocks).2 := by
+        simp only [List.mem_append, List.mem_map]
+        constructor
+        · rintro ((h | ⟨k', hk', he⟩) | h)
+          · exact absurd h hnD
+          · have : k' = k := by injection he
+            rw [← this]; exact hk'
+          · exact absurd h hnE
+        · intro h; exact Or.inl (Or.inr ⟨k, h, rfl⟩)
+      simp only [hiff]
+    · rw [h4, List.map_cons]
+
+theorem iterate_simple {σ : Type} (f : σ → Blk → σ × Bool) (s : σ) (c : BlockCache)
+    (hp : c.cache.Pairwise (fun a b => a.gid ≠ b.gid)) :
+    (iterate f s c).1 = (iterSimple f s c.cache).1 ∧
+    (iterate f s c).2.1 = { c with cache := (iterSimple f s c.cache).2 } ∧
+    (iterate f s c).2.2 = c.cache.map (fun g => (g.height, g.blocks)) := by
+  obtain ⟨h1, _, h3, h4⟩ := iterGo_simple f c.cache s [] hp (by simp)
+  unfold iterate
+  exact ⟨h1, by simp only [h3], h4⟩
+
+
+theorem iterSimple_mem {σ : Type} (f : σ → Blk → σ × Bool) : ∀ (l : List Group) (s : σ) (e' : Group),
+    e' ∈ (iterSimple f s l).2 →
+    ∃ e ∈ l, e'.gid = e.gid ∧ e'.height = e.height ∧ e'.blocks.Sublist e.blocks
+  | [], s, e', h => by simp [iterSimple] at h
+  | g :: rest, s, e', h => by
+    simp only [iterSimple, List.mem_cons] at h
+    rcases h with rfl | h
+    · exact ⟨g, by simp, rfl, rfl, List.filter_sublist⟩
+    · obtain ⟨e, he, h1⟩ := iterSimple_mem f rest _ e' h
+      exact ⟨e, by simp [he], h1⟩
+
+theorem iterSimple_pairwise {σ : Type} (f : σ → Blk → σ × Bool) (R : Group → Group → Prop)
+    (hR : ∀ a b a' b', a'.gid = a.gid → a'.height = a.height → b'.gid = b.gid → b'.height = b.height →
+      R a b → R a' b') : ∀ (l : List Group) (s : σ), l.Pairwise R → (iterSimple f s l).2.Pairwise R
+  | [], s, _ => by simp [iterSimple]
+  | g :: rest, s, h => by
+    rw [List.pairwise_cons] at h
+    simp only [iterSimple]
+    rw [List.pairwise_cons]
+    refine ⟨?_, iterSimple_pairwise f R hR rest _ h.2⟩
+    intro e' he'
+    obtain ⟨e, he, h1, h2, _⟩ := iterSimple_mem f rest _ e' he'
+    exact hR g e _ e' rfl rfl h1 h2 (h.1 e he)
+
+theorem iterSimple_wf {σ : Type} (f : σ → Blk → σ × Bool) (l : List Group) (s : σ) (n : Nat)
+    (h : WF { cache := l, next := n }) : WF { cache := (iterSimple f s l).2, next := n } := by
+  obtain ⟨h1, h2, h3, h4, h5⟩ := h
+  simp only at h1 h2 h3 h4 h5
+  refine ⟨?_, ?_, ?_, ?_, ?_⟩ <;> simp only
+  · exact iterSimple_pairwise f _ (by intro a b a' b' _ e2 _ e4 h; omega) l s h1
+  · exact iterSimple_pairwise f _ (by intro a b a' b' e1 _ e3 _ h; omega) l s h2
+  · intro e' he'
+    obtain ⟨e, he, e1, _, _⟩ := iterSimple_mem f l s e' he'
+    have := h3 e he; omega
+  · intro e' he' x hx
+    obtain ⟨e, he, _, e2, e3⟩ := iterSimple_mem f l s e' he'
+    rw [e2]; exact h4 e he x (e3.subset hx)
+  · intro e' he'
+    obtain ⟨e, he, _, _, e3⟩ := iterSimple_mem f l s e' he'
+    exact (h5 e he).sublist e3
+
+/-! ### the callback fold over a flat key list -/
+
+theorem visitKeys_append {σ : Type} (f : σ → Blk → σ × Bool) : ∀ (a b : List Blk) (s : σ),
+    visitKeys f s (a ++ b) =
+      ((visitKeys f (visitKeys f s a).1 b).1, (visitKeys f s a).2 ++ (visitKeys f (visitKeys f s a).1 b).2)
+  | [], b, s => by simp [visitKeys]
+  | k :: a, b, s => by
+    simp only [List.cons_append, visitKeys, visitKeys_append f a b]
+    split <;> simp
+
+theorem visitKeys_dels_subset {σ : Type} (f : σ → Blk → σ × Bool) : ∀ (ks : List Blk) (s : σ) (x : Blk),
+    x ∈ (visitKeys f s ks).2 → x ∈ ks
+  | [], s, x, h => by simp [visitKeys] at h
+  | k :: ks, s, x, h => by
+    simp only [visitKeys] at h
+    split at h
+    · rcases List.mem_cons.mp h with rfl | h
+      · simp
+      · exact List.mem_cons_of_mem _ (visitKeys_dels_subset f ks _ x h)
+    · exact List.mem_cons_of_mem _ (visitKeys_dels_subset f ks _ x h)
+
+/-- invariant-style specification of the callback fold:
+    `P` is kept by every call; a `true` answer for `x` establishes `Q x`; `Q` is stable;
+    blocks for which the callback must answer `true` under `P` (`G`) are all deleted. -/
+theorem visitKeys_spec {σ : Type} (f : σ → Blk → σ × Bool) (P : σ → Prop) (Q : Blk → σ → Prop) (G : Blk → Prop)
+    (hstep : ∀ s x, P s → P (f s x).1)
+    (hQ : ∀ s x, P s → (f s x).2 = true → Q x (f s x).1)
+    (hmono : ∀ s x y, P s → Q y s → Q y (f s x).1)
+    (hG : ∀ s x, P s → G x → (f s x).2 = true) :
+    ∀ (ks : List Blk) (s : σ), P s →
+      P (visitKeys f s ks).1 ∧ (∀ x ∈ (visitKeys f s ks).2, Q x (visitKeys f s ks).1) ∧
+      (∀ y, Q y s → Q y (visitKeys f s ks).1) ∧ (∀ x ∈ ks, G x → x ∈ (visitKeys f s ks).2)
+  | [], s, hs => by simp [visitKeys, hs]
+  | k :: ks, s, hs => by
+    obtain ⟨i1, i2, i3, i4⟩ := visitKeys_spec f P Q G hstep hQ hmono hG ks (f s k).1 (hstep s k hs)
+    simp only [visitKeys]
+    refine ⟨i1, ?_, ?_, ?_⟩
+    · intro x hx
+      split at hx
+      · rename_i hdel
+        rcases List.mem_cons.mp hx with rfl | hx
+        · exact i3 _ (hQ s _ hs hdel)
+        · exact i2 x hx
+      · exact i2 x hx
+    · intro y hy
+      exact i3 y (hmono s k y hs hy)
+    · intro x hx hg
+      rcases List.mem_cons.mp hx with rfl | hx
+      · simp [hG s _ hs hg]
+      · split
+        · exact List.mem_cons_of_mem _ (i4 x hx hg)
+        · exact i4 x hx hg
+
+theorem visitKeys_pure {σ : Type} (f : σ → Blk → σ × Bool) (p : Blk → Bool) (hp : ∀ s x, (f s x).2 = p x) :
+    ∀ (ks : List Blk) (s : σ), (visitKeys f s ks).2 = ks.filter p
+  | [], s => by simp [visitKeys]
+  | k :: ks, s => by
+    simp only [visitKeys, hp, visitKeys_pure f p hp ks, List.filter_cons]
+
+/-- `Iterate` on a well-formed cache is the callback fold over the multimap in ascending order -/
+theorem iterSimple_flat {σ : Type} (f : σ → Blk → σ × Bool) : ∀ (l : List Group) (s : σ), (blocksOf l).Nodup →
+    (iterSimple f s l).1 = (visitKeys f s (blocksOf l)).1 ∧
+    ∀ x, x ∈ blocksOf (iterSimple f s l).2 ↔ x ∈ blocksOf l ∧ x ∉ (visitKeys f s (blocksOf l)).2
+  | [], s, _ => by simp [iterSimple, visitKeys]
+  | g :: rest, s, hn => by
+    rw [blocksOf_cons, List.nodup_append] at hn
+    obtain ⟨_, hn2, hdisj⟩ := hn
+    obtain ⟨ih1, ih2⟩ := iterSimple_flat f rest (visitKeys f s g.blocks).1 hn2
+    simp only [iterSimple, blocksOf_cons, visitKeys_append]
+    refine ⟨ih1, ?_⟩
+    intro x
+    simp only [List.mem_append, List.mem_filter, decide_eq_true_eq, ih2]
+    constructor
+    · rintro (⟨h1, h2⟩ | ⟨h1, h2⟩)
+      · refine ⟨Or.inl h1, ?_⟩
+        rintro (h | h)
+        · exact h2 h
+        · exact hdisj x h1 x (visitKeys_dels_subset f _ _ x h) rfl
+      · refine ⟨Or.inr h1, ?_⟩
+        rintro (h | h)
+        · exact hdisj x (visitKeys_dels_subset f _ _ x h) x h1 rfl
+        · exact h2 h
+    · rintro ⟨h1 | h1, h2⟩
+      · exact Or.inl ⟨h1, fun h => h2 (Or.inl h)⟩
+      · exact Or.inr ⟨h1, fun h => h2 (Or.inr h)⟩
+
+theorem blocksOf_nodup : ∀ (l : List Group), l.Pairwise (fun a b => a.height < b.height) →
+    (∀ g ∈ l, ∀ b ∈ g.blocks, b.height = g.height) → (∀ g ∈ l, g.blocks.Nodup) → (blocksOf l).Nodup
+  | [], _, _, _ => by simp
+  | g :: rest, hs, hh, hn => by
+    rw [List.pairwise_cons] at hs
+    rw [blocksOf_cons, List.nodup_append]
+    refine ⟨hn g (by simp), blocksOf_nodup rest hs.2 (fun e he => hh e (by simp [he])) (fun e he => hn e (by simp [he])), ?_⟩
+    intro a ha b hb hab
+    subst hab
+    obtain ⟨e, he, hae⟩ := mem_blocksOf.mp hb
+    have h1 := hh g (by simp) a ha
+    have h2 := hh e (by simp [he]) a hae
+    have h3 := hs.1 e he
+    omega
+
+theorem wf_blocksOf_nodup {c : BlockCache} (h : WF c) : (blocksOf c.cache).Nodup :=
+  blocksOf_nodup c.cache h.sorted h.hts h.nodup
+
+/-- all facts about `Iterate` on a well-formed cache in one statement -/
+theorem iterate_wf {σ : Type} (f : σ → Blk → σ × Bool) (s : σ) (c : BlockCache) (hc : WF c) :
+    WF (iterate f s c).2.1 ∧
+    (iterate f s c).1 = (visitKeys f s (blocksOf c.cache)).1 ∧
+    (∀ x, x ∈ blocksOf (iterate f s c).2.1.cache ↔
+        x ∈ blocksOf c.cache ∧ x ∉ (visitKeys f s (blocksOf c.cache)).2) ∧
+    (iterate f s c).2.2 = c.cache.map (fun g => (g.height, g.blocks)) := by
+  obtain ⟨h1, h2, h3⟩ := iterate_simple f s c hc.gids
+  obtain ⟨h4, h5⟩ := iterSimple_flat f c.cache s (wf_blocksOf_nodup hc)
+  refine ⟨?_, by rw [h1, h4], ?_, h3⟩
+  · rw [h2]; exact iterSimple_wf f c.cache s c.next hc
+  · intro x; rw [h2]; exact h5 x
+
+
+/-! ### Remove -/
+
+theorem removeGo_nomatch (b : Blk) : ∀ (l : List Group) (D : List Nat), (∀ g ∈ l, g.height ≠ b.height) →
+    removeGo b D l = (l, D)
+  | [], D, _ => by simp [removeGo]
+  | g :: rest, D, h => by
+    have h1 : g.height ≠ b.height := h g (by simp)
+    simp only [removeGo, h1, if_false]
+    rw [removeGo_nomatch b rest D (fun e he => h e (by simp [he]))]
+
+theorem removeGo_match (b : Blk) (g : Group) (rest : List Group) (hg : g.height = b.height)
+    (hr : ∀ x ∈ rest, x.height ≠ b.height) : ∀ (pre : List Group) (D : List Nat),
+    (∀ x ∈ pre, x.height ≠ b.height) →
+    removeGo b D (pre ++ g :: rest) =
+      (pre ++ (if (after b (g.gid :: D) g).blocks.isEmpty then rest else g :: rest), g.gid :: D)
+  | [], D, _ => by
+    simp only [List.nil_append, removeGo, hg, if_true]
+    by_cases he : (after b (g.gid :: D) g).blocks.isEmpty = true
+    · simp only [he, if_true]
+      cases rest with
+      | nil => rfl
+      | cons y rest' =>
+        simp only
+        rw [removeGo_nomatch b rest' _ (fun e he => hr e (by simp [he]))]
+    · simp only [he, if_false]
+      rw [removeGo_nomatch b rest _ hr]
+      simp
+  | p :: pre, D, hp => by
+    have h1 : p.height ≠ b.height := hp p (by simp)
+    simp only [List.cons_append, removeGo, h1, if_false]
+    rw [removeGo_match b g rest hg hr pre D (fun e he => hp e (by simp [he]))]
+
+theorem after_nil (b : Blk) (l : List Group) : l.map (after b []) = l := by
+  have : after b [] = id := by funext e; simp [after]
+  rw [this]; simp
+
+theorem after_single (b : Blk) (g : Nat) (l : List Group) :
+    l.map (after b [g]) = l.map (fun e => if e.gid = g then { e with blocks := mapDel e.blocks b } else e) := by
+  apply List.map_congr_left
+  intro e _
+  simp [after]
+
+theorem not_mem_blocksOf_of_height {b : Blk} {l : List Group}
+    (hh : ∀ g ∈ l, ∀ x ∈ g.blocks, x.height = g.height) (hne : ∀ g ∈ l, g.height ≠ b.height) :
+    b ∉ blocksOf l := by
+  intro hb
+  obtain ⟨g, hg, hbg⟩ := mem_blocksOf.mp hb
+  exact hne g hg (hh g hg b hbg).symm
+
+theorem remove_refines (b : Blk) (c : BlockCache) (hc : WF c) :
+    WF (remove b c) ∧ ∀ x, x ∈ blocksOf (remove b c).cache ↔ x ∈ blocksOf c.cache ∧ x ≠ b := by
+  have hsame : (b ∉ blocksOf c.cache) → ∀ x, x ∈ blocksOf c.cache ↔ x ∈ blocksOf c.cache ∧ x ≠ b := by
+    intro hb x
+    constructor
+    · intro hx; exact ⟨hx, fun h => hb (h ▸ hx)⟩
+    · exact fun h => h.1
+  unfold remove
+  cases hcc : c.cache with
+  | nil =>
+    simp only
+    refine ⟨hc, ?_⟩
+    rw [hcc]; simp
+  | cons f tl =>
+    simp only
+    by_cases hguard : (decide (f.height > b.height) || decide (lastHeight (f :: tl) < b.height)) = true
+    · simp only [hguard, if_true]
+      refine ⟨hc, ?_⟩
+      rw [← hcc]
+      apply hsame
+      apply not_mem_blocksOf_of_height hc.hts
+      intro g hg
+      rw [hcc] at hg
+      have hs := hc.sorted
+      rw [hcc] at hs
+      have h1 := first_le_of_sorted hs g hg
+      have h2 := le_lastHeight (f :: tl) hs g hg
+      simp only [Bool.or_eq_true, decide_eq_true_eq] at hguard
+      omega
+    · simp only [hguard]
+      simp only [Bool.false_eq_true, if_false]
+      rw [← hcc]
+      by_cases hex : ∃ g ∈ c.cache, g.height = b.height
+      · obtain ⟨g, hgm, hg⟩ := hex
+        obtain ⟨pre, rest, he⟩ := List.append_of_mem hgm
+        have hs := hc.sorted
+        rw [he, List.pairwise_append, List.pairwise_cons] at hs
+        have hpre : ∀ x ∈ pre, x.height ≠ b.height := by
+          intro x hx; have := hs.2.2 x hx g (by simp); omega
+        have hrest : ∀ x ∈ rest, x.height ≠ b.height := by
+          intro x hx; have := hs.2.1.1 x hx; omega
+        have hgo := removeGo_match b g rest hg hrest pre [] hpre
+        have haft : after b [g.gid] g = { g with blocks := mapDel g.blocks b } := by simp [after]
+        rw [he, hgo]
+        simp only [haft]
+        have hgids := hc.gids
+        rw [he] at hgids
+        have hw : WF { cache := pre ++ g :: rest, next := c.next } := by rw [← he]; exact hc
+        by_cases hem : (mapDel g.blocks b).isEmpty = true
+        · simp only [hem, if_true]
+          have hg2 : (pre ++ rest).map (after b [g.gid]) = pre ++ rest := by
+            rw [after_single]
+            apply updGid_not_mem
+            intro e hee
+            rw [List.pairwise_append, List.pairwise_cons] at hgids
+            rcases List.mem_append.mp hee with h | h
+            · exact hgids.2.2 e h g (by simp)
+            · exact fun hh => hgids.2.1.1 e h hh.symm
+          rw [hg2]
+          constructor
+          · exact wf_sublist (by simp) hw
+          · intro x
+            simp only [blocksOf_append, blocksOf_cons, List.mem_append]
+            have hall : ∀ y ∈ g.blocks, y = b := by
+              intro y hy
+              by_cases hne : y = b
+              · exact hne
+              · exfalso
+                have : y ∈ mapDel g.blocks b := mem_mapDel.mpr ⟨hy, hne⟩
+                rw [List.isEmpty_iff.mp hem] at this
+                simp at this
+            have hnb : ∀ e, e ∈ pre ∨ e ∈ rest → b ∉ e.blocks := by
+              intro e hee hbe
+              have h1 : b.height = e.height := hc.hts e (by rw [he]; rcases hee with h | h <;> simp [h]) b hbe
+              rcases hee with h | h
+              · exact hpre e h h1.symm
+              · exact hrest e h h1.symm
+            constructor
+            · rintro (h | h)
+              · refine ⟨Or.inl h, ?_⟩
+                obtain ⟨e, hee, hxe⟩ := mem_blocksOf.mp h
+                intro hxb; subst hxb; exact hnb e (Or.inl hee) hxe
+              · refine ⟨Or.inr (Or.inr h), ?_⟩
+                obtain ⟨e, hee, hxe⟩ := mem_blocksOf.mp h
+                intro hxb; subst hxb; exact hnb e (Or.inr hee) hxe
+            · rintro ⟨h | h | h, hne⟩
+              · exact Or.inl h
+              · exact absurd (hall x h) hne
+              · exact Or.inr h
+        · simp only [hem]
+          simp only [Bool.false_eq_true, if_false]
+          have hg2 : (pre ++ g :: rest).map (after b [g.gid]) = pre ++ { g with blocks := mapDel g.blocks b } :: rest := by
+            rw [after_single]
+            exact updGid_at (fun e => { e with blocks := mapDel e.blocks b }) pre g rest hgids
+          rw [hg2]
+          constructor
+          · exact wf_replace pre rest g c.next _ hw c.next (Nat.le_refl _)
+              (fun x hx => hc.hts g hgm x (mem_mapDel.mp hx).1) (nodup_mapDel (hc.nodup g hgm))
+          · intro x
+            simp only [blocksOf_append, blocksOf_cons, List.mem_append, mem_mapDel]
+            have hnb : ∀ e, e ∈ pre ∨ e ∈ rest → b ∉ e.blocks := by
+              intro e hee hbe
+              have h1 : b.height = e.height := hc.hts e (by rw [he]; rcases hee with h | h <;> simp [h]) b hbe
+              rcases hee with h | h
+              · exact hpre e h h1.symm
+              · exact hrest e h h1.symm
+            constructor
+            · rintro (h | ⟨h, hne⟩ | h)
+              · refine ⟨Or.inl h, ?_⟩
+                obtain ⟨e, hee, hxe⟩ := mem_blocksOf.mp h
+                intro hxb; subst hxb; exact hnb e (Or.inl hee) hxe
+              · exact ⟨Or.inr (Or.inl h), hne⟩
+              · refine ⟨Or.inr (Or.inr h), ?_⟩
+                obtain ⟨e, hee, hxe⟩ := mem_blocksOf.mp h
+                intro hxb; subst hxb; exact hnb e (Or.inr hee) hxe
+            · rintro ⟨h | h | h, hne⟩
+              · exact Or.inl h
+              · exact Or.inr (Or.inl ⟨h, hne⟩)
+              · exact Or.inr (Or.inr h)
+      · have hne : ∀ g ∈ c.cache, g.height ≠ b.height := fun g hg hh => hex ⟨g, hg, hh⟩
+        rw [removeGo_nomatch b c.cache [] hne]
+        simp only [after_nil]
+        refine ⟨hc, hsame (not_mem_blocksOf_of_height hc.hts hne)⟩
+
 end LemoProofs.SyncLemmas
